@@ -141,8 +141,9 @@ def check_main(prop, tier, engine, engine_name, families, level, rule, assumptio
                       'clients': [{'compiled': 2, 'root': 'bundled'}],
                       'msgs': [{'ref': r['ref'], 'hex': r['hex'], 'cls': '?', 'json': '[]', 'qs': [], 'key': None,
                                 'marker': False, 'nsub': 0}],
-                      'ops': [{'op': 'decode', 'c': 0, 'm': 0, 'wire': True, 'ive': False}]}
-                     for r in pinfo.get('_all_rejected', [])[:24]]
+                      'ops': [{'op': 'decode', 'c': 0, 'm': 0, 'wire': True, 'ive': False},
+                              {'op': 'decode', 'c': 0, 'm': 0, 'wire': False, 'ive': False}]}
+                     for r in pinfo.get('_all_rejected', [])[:60]]
     if hasattr(main_engine, 'set_rejected'):
         main_engine.set_rejected(pinfo.get('_all_rejected', []))
     pinfo.pop('_all_rejected', None)
